@@ -8,7 +8,10 @@ from ..astutil import (
     call_name, calls_in, dotted, enclosing_stmt, guard_atoms, lexical_guards, name_stores, own_exprs, raised_name, unparse,
     walk_local,
 )
-from ..report import Registry, sub
+from ..report import Registry, chain, sub
+from ._helpers_rob_b1 import (
+    bind_args, bindings, dominating_guards, expanded_atoms, inline_predicate, resolve_alias, resolve_callee, substitute,
+)
 from ._helpers_rules_b import (
     ORD, PARAM, SET, TAINTED, UNKNOWN, Kind, OrderFlow, arg_for, call_sites, ordinal_keys, topo_flow,
 )
@@ -75,38 +78,181 @@ def r1(ctx):
                   "returns " + ", ".join(sorted({k.k for k in ks})), f.loc)
 
 
+def _pair_target(loop: ast.For):
+    """(first, second) expression texts naming the two components of the pair a `for .. in <pairs>` loop
+    visits: `for a, b in`, `for p in ..: a, b = p`, or `p[0]` / `p[1]`."""
+    t = loop.target
+    if isinstance(t, ast.Tuple) and len(t.elts) == 2 and all(isinstance(e, ast.Name) for e in t.elts):
+        return t.elts[0].id, t.elts[1].id
+    if isinstance(t, ast.Name):
+        for st in loop.body:
+            if isinstance(st, ast.Assign) and len(st.targets) == 1 and isinstance(st.targets[0], ast.Tuple) \
+                    and len(st.targets[0].elts) == 2 and all(isinstance(e, ast.Name) for e in st.targets[0].elts) \
+                    and isinstance(st.value, ast.Name) and st.value.id == t.id:
+                return st.targets[0].elts[0].id, st.targets[0].elts[1].id
+        return f"{t.id}[0]", f"{t.id}[1]"
+    return None
+
+
 def _emission(ctx):
     """Locate the structure of sort_as_subsets: edge map E, pending set S, emitted list O."""
     f = ctx.func(f"{TOPO}::sort_as_subsets")
     tuples_p, items_p = f.params[0], f.params[1]
-    # (a) the loop building the edge map from the pair parameter
+    # (a) the loop building the edge map from the pair parameter (or a materialised copy / alias of it)
     build = None
     for n in walk_local(f.node):
-        if isinstance(n, ast.For) and isinstance(n.iter, ast.Name) and n.iter.id == tuples_p \
-                and isinstance(n.target, ast.Tuple) and len(n.target.elts) == 2 \
-                and all(isinstance(e, ast.Name) for e in n.target.elts):
+        if isinstance(n, ast.For) and _same_input(ctx, f, n.iter, tuples_p, n) and _pair_target(n) is not None:
             build = n
     ctx.require(build is not None, "no `for (a, b) in <pairs>` loop building the edge map in sort_as_subsets")
-    first, second = (e.id for e in build.target.elts)
+    first, second = _pair_target(build)
     adds = []
     for c in calls_in(build):
         fn_ = c.func
-        if isinstance(fn_, ast.Attribute) and fn_.attr in ("add", "append") and isinstance(fn_.value, ast.Subscript) \
-                and isinstance(fn_.value.value, ast.Name) and len(c.args) == 1:
-            adds.append((fn_.value.value.id, unparse(fn_.value.slice), unparse(c.args[0])))
+        if not (isinstance(fn_, ast.Attribute) and fn_.attr in ("add", "append") and len(c.args) == 1):
+            continue
+        recv = fn_.value
+        if isinstance(recv, ast.Subscript) and isinstance(recv.value, ast.Name):
+            adds.append((recv.value.id, unparse(recv.slice), unparse(c.args[0])))
+        elif isinstance(recv, ast.Call) and isinstance(recv.func, ast.Attribute) and recv.func.attr == "setdefault" \
+                and isinstance(recv.func.value, ast.Name) and recv.args:
+            adds.append((recv.func.value.id, unparse(recv.args[0]), unparse(c.args[0])))
     ctx.require(len(adds) == 1, f"edge-map construction not understood: {adds}")
     return f, tuples_p, items_p, build, first, second, adds[0]
 
 
-def _disjoint_atom(test_text: str, S: str, E: str, node: str):
-    """Does the (positive) atom say `no member of E[node] is in S`?"""
-    t = test_text.replace(" ", "")
-    pos = {f"{S}.isdisjoint({E}[{node}])", f"{E}[{node}].isdisjoint({S})"}
-    neg = {f"{S}.intersection({E}[{node}])", f"{E}[{node}].intersection({S})", f"{S}&{E}[{node}]", f"{E}[{node}]&{S}"}
-    if t in pos:
-        return True   # must hold with polarity True
-    if t in neg:
-        return False  # must hold with polarity False
+def _disjoint_test(atom_text: str, E: str, node: str):
+    """(S, polarity) when the atom, holding with that polarity, says `no member of E[node] is in the set S`:
+    S.isdisjoint(E[node]) / E[node].isdisjoint(S) (True); S & E[node], .intersection() (False);
+    all(p not in S for p in E[node]) (True); any(p in S for p in E[node]) (False)."""
+    try:
+        a = ast.parse(atom_text, mode="eval").body
+    except SyntaxError:
+        return None
+
+    def is_en(x):
+        return isinstance(x, ast.Subscript) and isinstance(x.value, ast.Name) and x.value.id == E and unparse(x.slice) == node
+
+    def pair(x, y):
+        if is_en(x) and isinstance(y, ast.Name) and y.id not in (E, node):
+            return y.id
+        if is_en(y) and isinstance(x, ast.Name) and x.id not in (E, node):
+            return x.id
+        return None
+
+    if isinstance(a, ast.Call) and isinstance(a.func, ast.Attribute) and len(a.args) == 1 and not a.keywords:
+        s = pair(a.func.value, a.args[0])
+        if s is not None and a.func.attr == "isdisjoint":
+            return s, True
+        if s is not None and a.func.attr == "intersection":
+            return s, False
+    if isinstance(a, ast.BinOp) and isinstance(a.op, ast.BitAnd):
+        s = pair(a.left, a.right)
+        if s is not None:
+            return s, False
+    if isinstance(a, ast.Call) and isinstance(a.func, ast.Name) and a.func.id in ("all", "any") and len(a.args) == 1 \
+            and isinstance(a.args[0], (ast.GeneratorExp, ast.ListComp)) and len(a.args[0].generators) == 1:
+        gen = a.args[0].generators[0]
+        elt = a.args[0].elt
+        neg = False
+        while isinstance(elt, ast.UnaryOp) and isinstance(elt.op, ast.Not):
+            elt, neg = elt.operand, not neg
+        if not gen.ifs and isinstance(gen.target, ast.Name) and isinstance(elt, ast.Compare) and len(elt.ops) == 1 \
+                and isinstance(elt.ops[0], (ast.In, ast.NotIn)) and isinstance(elt.left, ast.Name) and elt.left.id == gen.target.id:
+            s = pair(gen.iter, elt.comparators[0])
+            member = isinstance(elt.ops[0], ast.In) != neg   # element says "x in other"
+            if s is not None:
+                if a.func.id == "all" and not member:
+                    return s, True
+                if a.func.id == "any" and member:
+                    return s, False
+    return None
+
+
+def _emit_sites(ctx, f, O, pm, g):
+    """Every way an element enters the emitted list O: [(node name, guards, loc node, text)], plus the
+    statements touching O that are not understood.  `O.append(x)` under branch outcomes, and the comprehension
+    forms `O = [x for x in L if c]` / `O.extend(x for x in L if c)` (the `if` clauses are the guards)."""
+    sites, unknown = [], []
+
+    def comp_site(comp, st):
+        if not (isinstance(comp.elt, ast.Name) and any(isinstance(gen.target, ast.Name) and gen.target.id == comp.elt.id
+                                                      for gen in comp.generators)):
+            unknown.append(st)
+            return
+        guards = [(t, True) for gen in comp.generators for t in gen.ifs]
+        sites.append((comp.elt.id, dominating_guards(g, pm, f.node, st, st) + guards, st, unparse(comp)))
+
+    def comp_of(v):
+        if isinstance(v, (ast.ListComp, ast.GeneratorExp)):
+            return v
+        if isinstance(v, ast.Call) and call_name(v) in ("list", "tuple") and len(v.args) == 1 and isinstance(v.args[0], (ast.ListComp, ast.GeneratorExp)):
+            return v.args[0]
+        return None
+
+    for n, v, st in name_stores(f.node):
+        if n != O:
+            continue
+        if v is not None and (isinstance(v, ast.List) and not v.elts or isinstance(v, ast.Call) and call_name(v) == "list" and not v.args):
+            continue  # starts empty
+        if isinstance(st, ast.AugAssign) and isinstance(st.op, ast.Add) and isinstance(st.value, ast.List) \
+                and len(st.value.elts) == 1 and isinstance(st.value.elts[0], ast.Name):
+            sites.append((st.value.elts[0].id, dominating_guards(g, pm, f.node, st, st), st, unparse(st)))
+            continue
+        c = comp_of(v) if v is not None else None
+        if c is None:
+            unknown.append(st)
+        else:
+            comp_site(c, st)
+    for c in calls_in(f.node):
+        if not (isinstance(c.func, ast.Attribute) and isinstance(c.func.value, ast.Name) and c.func.value.id == O):
+            continue
+        if c.func.attr not in ("append", "extend", "insert", "__iadd__"):
+            continue
+        st = enclosing_stmt(pm, c)
+        if c.func.attr == "append" and len(c.args) == 1 and isinstance(c.args[0], ast.Name):
+            sites.append((c.args[0].id, dominating_guards(g, pm, f.node, c, st), c, unparse(c)))
+        elif c.func.attr == "extend" and len(c.args) == 1 and comp_of(c.args[0]) is not None:
+            comp_site(comp_of(c.args[0]), st)
+        else:
+            unknown.append(st)
+    sites.sort(key=lambda s: (s[2].lineno, s[2].col_offset))
+    return sites, unknown
+
+
+def _emptiness(atom: str, pol: bool, O: str):
+    """'empty' / 'nonempty' when the atom (with polarity) decides whether the list O has elements, else None."""
+    t = atom.replace(" ", "")
+    truthy = {O, f"len({O})", f"len({O})>0", f"len({O})>=1", f"bool({O})", f"0<len({O})"}
+    falsy = {f"len({O})==0", f"{O}==[]", f"0==len({O})", f"len({O})<1", f"[]=={O}"}
+    if t in truthy:
+        return "nonempty" if pol else "empty"
+    if t in falsy:
+        return "empty" if pol else "nonempty"
+    return None
+
+
+def _cde_ctor(ctx, f, node):
+    """The `CircularDependencyError(...)` constructor call a statement raises, with the caller's expressions
+    substituted when the raise (or the construction of the exception) lives in a one-statement helper."""
+    def is_cde(e):
+        return isinstance(e, ast.Call) and (call_name(e) or "").rsplit(".", 1)[-1] == "CircularDependencyError"
+
+    if isinstance(node, ast.Raise) and node.exc is not None:
+        e = resolve_alias(f.node, node.exc)
+        if is_cde(e):
+            return e
+        if isinstance(e, ast.Call):
+            inl = inline_predicate(ctx, f, e)     # `raise _cycle_error(pairs, items, edges)`
+            if inl is not None and is_cde(inl):
+                return inl
+    if isinstance(node, ast.Expr) and isinstance(node.value, ast.Call):
+        callee = resolve_callee(ctx, f, node.value)   # `_raise_cycle(pairs, items, edges)`
+        if callee is not None and callee.module is f.module:
+            body = [s for s in callee.node.body if not (isinstance(s, ast.Expr) and isinstance(s.value, ast.Constant))]
+            m = bind_args(node.value, callee)
+            if len(body) == 1 and isinstance(body[0], ast.Raise) and is_cde(body[0].exc) and m is not None:
+                ctx.functions_analysed.add(callee.key)
+                return substitute(body[0].exc, m)
     return None
 
 
@@ -119,36 +265,36 @@ def r2(ctx):
     g = ctx.cfg(f)
     pm = f.module.parents()
     base = f.key
+    binds = bindings(f.node)
     # (a) orientation: pairs are (parent, child); edges[child] collects the parents
     ctx.check(idx == second and val == first, base + ":edges-orientation",
               f"edge map is built as {E}[{idx}].add({val}) for pairs ({first}, {second}): the map no longer "
               f"lists the prerequisites (first components) of each dependent (second component)",
               f"{E}[{second}] collects {first} (prerequisites of each dependent)", f"{f.module.path}:{build.lineno}")
     # (b) emission guard
-    ys = [n for n in walk_local(f.node) if isinstance(n, ast.Yield) and isinstance(n.value, ast.Name)]
+    def _yielded_name(v):
+        while isinstance(v, ast.Call) and call_name(v) in ("list", "tuple") and len(v.args) == 1:
+            v = v.args[0]
+        return v.id if isinstance(v, ast.Name) else None
+
+    ys = [n for n in walk_local(f.node) if isinstance(n, ast.Yield) and n.value is not None and _yielded_name(n.value)]
     ctx.require(len(ys) == 1, "sort_as_subsets: expected exactly one `yield <list>`")
-    O = ys[0].value.id
-    emits = [c for c in calls_in(f.node) if isinstance(c.func, ast.Attribute) and c.func.attr in ("append", "extend", "insert")
-             and isinstance(c.func.value, ast.Name) and c.func.value.id == O]
-    ctx.require(emits, f"no append to the emitted list `{O}`")
+    O = _yielded_name(ys[0].value)
+    emits, unknown = _emit_sites(ctx, f, O, pm, g)
+    ctx.require(not unknown, f"the emitted list `{O}` is built by a statement that is not understood: "
+                             f"`{unparse(unknown[0]).splitlines()[0][:80]}`" if unknown else "")
+    ctx.require(emits, f"nothing is ever added to the emitted list `{O}`")
     S = None
-    for key, c in ordinal_keys(emits, lambda c: base + ":emission-guard"):
-        loc = f"{f.module.path}:{c.lineno}"
-        ctx.require(c.func.attr == "append" and len(c.args) == 1 and isinstance(c.args[0], ast.Name),
-                    f"emission `{unparse(c)}` is not `<list>.append(<node>)`")
-        node = c.args[0].id
-        st = enclosing_stmt(pm, c)
-        atoms = guard_atoms(lexical_guards(pm, st, stop=f.node))
+    for key, (node, guards, at, text) in ordinal_keys(emits, lambda c: base + ":emission-guard"):
+        loc = f"{f.module.path}:{at.lineno}"
+        atoms = expanded_atoms(ctx, f, guards, binds)
         good = False
-        for text, pol in atoms:
-            # find the pending-set name: any Name S such that the atom is a disjointness test of E[node] and S
-            for cand in {n.id for n in ast.walk(ast.parse(text, mode="eval")) if isinstance(n, ast.Name)} - {E, node}:
-                want = _disjoint_atom(text, cand, E, node)
-                if want is not None and want == pol:
-                    good, S = True, cand
-        # the guarded node must be the loop variable of an enclosing loop over the pending list
+        for atext, pol in atoms:
+            hit = _disjoint_test(atext, E, node)
+            if hit is not None and hit[1] == pol:
+                good, S = True, hit[0]
         ctx.check(good, key,
-                  f"`{unparse(c)}` is not guarded by a test that {E}[{node}] (the parents of {node}) is disjoint "
+                  f"`{text}` is not guarded by a test that {E}[{node}] (the parents of {node}) is disjoint "
                   f"from the pending set (guards: {atoms})",
                   f"guarded by disjointness of {E}[{node}] and `{S}`", loc)
     if S is None:
@@ -156,14 +302,30 @@ def r2(ctx):
         for a in (":pending-is-all-items", ":emitted-removed-before-next-round", ":empty-round-raises", ":raise-carries-find-cycles"):
             ctx.violation(base + a, "cannot be established: no emission guard names the pending set", f.loc)
         return
+
+    def _is_O(e):
+        while isinstance(e, ast.Call) and call_name(e) in _MATERIALISE and len(e.args) == 1:
+            e = e.args[0]
+        return isinstance(e, ast.Name) and e.id == O
+
+    def _minus_O(v):
+        """`S - set(O)` / `S.difference(O)`"""
+        if isinstance(v, ast.BinOp) and isinstance(v.op, ast.Sub) and isinstance(v.left, ast.Name) and v.left.id == S:
+            return _is_O(v.right)
+        return isinstance(v, ast.Call) and dotted(v.func) == f"{S}.difference" and len(v.args) == 1 and _is_O(v.args[0])
+
     # (b2) the pending set starts as the set of all items
-    sb = [(v, st) for n in walk_local(f.node) if isinstance(n, (ast.Assign, ast.AnnAssign))
-          for (v, st) in [(n.value, n)]
-          if any(isinstance(t, ast.Name) and t.id == S for t in (n.targets if isinstance(n, ast.Assign) else [n.target]))]
-    init_ok = bool(sb) and all(
-        isinstance(v, ast.Call) and call_name(v) in ("set", "frozenset") and len(v.args) == 1 and unparse(v.args[0]) == items_p
-        for v, _ in sb
-    )
+    sb = [(v, st) for v, st in binds.get(S, []) if not (v is not None and _minus_O(v))
+          and not (isinstance(st, ast.AugAssign) and isinstance(st.op, ast.Sub))]
+
+    def _all_items(v, st):
+        if isinstance(v, ast.Call) and call_name(v) in ("set", "frozenset") and len(v.args) == 1 and not v.keywords:
+            return _same_input(ctx, f, v.args[0], items_p, st)
+        if isinstance(v, ast.Set) and len(v.elts) == 1 and isinstance(v.elts[0], ast.Starred):
+            return _same_input(ctx, f, v.elts[0].value, items_p, st)
+        return False
+
+    init_ok = bool(sb) and all(v is not None and _all_items(v, st) for v, st in sb)
     ctx.check(init_ok, base + ":pending-is-all-items",
               f"pending set `{S}` is not initialised as set({items_p}) (bindings: {[unparse(st) for _, st in sb]})",
               f"{S} = set({items_p})", f.loc)
@@ -171,20 +333,27 @@ def r2(ctx):
     loops = [n for n in walk_local(f.node) if isinstance(n, ast.While) and any(x is ys[0] for x in ast.walk(n))]
     ctx.require(len(loops) == 1, "the yield is not inside exactly one while loop")
     w = loops[0]
-    ctx.require(S in {n.id for n in ast.walk(w.test) if isinstance(n, ast.Name)},
-                f"the round loop `while {unparse(w.test)}` does not test the pending set `{S}`")
+    tests_S = S in {n.id for n in ast.walk(w.test) if isinstance(n, ast.Name)} or any(
+        isinstance(st, ast.If) and S in {n.id for n in ast.walk(st.test) if isinstance(n, ast.Name)}
+        and any(isinstance(x, (ast.Break, ast.Return)) for x in ast.walk(st)) for st in w.body)
+    ctx.require(tests_S, f"the round loop `while {unparse(w.test)}` does not test the pending set `{S}`")
     removal = []
     for n in g.nodes:
-        if n.kind != "stmt" or n.stmt is None:
-            continue
         s = n.stmt
-        if isinstance(s, ast.Expr) and isinstance(s.value, ast.Call):
+        if s is None:
+            continue
+        if n.kind == "stmt" and isinstance(s, ast.Expr) and isinstance(s.value, ast.Call):
             c = s.value
-            if dotted(c.func) == f"{S}.difference_update" and len(c.args) == 1 and unparse(c.args[0]) in (O, f"set({O})"):
+            if dotted(c.func) == f"{S}.difference_update" and len(c.args) == 1 and _is_O(c.args[0]):
                 removal.append(n.id)
-        elif isinstance(s, ast.AugAssign) and isinstance(s.op, ast.Sub) and unparse(s.target) == S \
-                and unparse(s.value) in (f"set({O})", O):
+        elif n.kind == "stmt" and isinstance(s, ast.AugAssign) and isinstance(s.op, ast.Sub) and unparse(s.target) == S and _is_O(s.value):
             removal.append(n.id)
+        elif n.kind == "stmt" and isinstance(s, ast.Assign) and len(s.targets) == 1 and unparse(s.targets[0]) == S and _minus_O(s.value):
+            removal.append(n.id)
+        elif n.kind == "for" and isinstance(s, ast.For) and _is_O(s.iter) and isinstance(s.target, ast.Name) and any(
+                isinstance(b, ast.Expr) and isinstance(b.value, ast.Call) and dotted(b.value.func) in (f"{S}.remove", f"{S}.discard")
+                and len(b.value.args) == 1 and unparse(b.value.args[0]) == s.target.id for b in s.body):
+            removal.append(n.id)   # `for x in O: S.remove(x)` (unconditional in the body)
     tnode = g.nodes_for(w)
     ctx.require(len(tnode) == 1, "while test node not unique")
     starts = [b for b, lab in g.succ[tnode[0]] if lab == "true"]
@@ -194,15 +363,22 @@ def r2(ctx):
               f"(nodes would be emitted again / the loop would not terminate)",
               f"{S}.difference_update({O}) on every round", f"{f.module.path}:{w.lineno}", wit)
     # (d) empty round raises; the yield is reached only with a non-empty round
-    raises = [n for n in walk_local(w) if isinstance(n, ast.Raise) and (raised_name(n) or "").endswith("CircularDependencyError")]
+    raises = []   # (statement in the loop, CircularDependencyError(...) constructor call)
+    for n in walk_local(w):
+        if isinstance(n, (ast.Raise, ast.Expr)):
+            ctor = _cde_ctor(ctx, f, n)
+            if ctor is not None:
+                raises.append((n, ctor))
+            elif isinstance(n, ast.Raise) and (raised_name(n) or "").endswith("CircularDependencyError"):
+                raises.append((n, None))
     ok_raise = False
-    for r in raises:
-        atoms = guard_atoms(lexical_guards(pm, r, stop=w))
-        if (O, False) in atoms or (f"len({O}) == 0", True) in atoms or (f"len({O})", False) in atoms:
+    for r, _ in raises:
+        atoms = expanded_atoms(ctx, f, dominating_guards(g, pm, f.node, r, r), binds)
+        if any(_emptiness(a, pol, O) == "empty" for a, pol in atoms):
             ok_raise = True
-    yn = g.nodes_for(enclosing_stmt(pm, ys[0]))
-    yguard = guard_atoms(g.edge_guards(yn[0])) if yn else []
-    nonempty = (O, True) in yguard
+    yst = enclosing_stmt(pm, ys[0])
+    yguard = expanded_atoms(ctx, f, dominating_guards(g, pm, f.node, yst, yst), binds)
+    nonempty = any(_emptiness(a, pol, O) == "nonempty" for a, pol in yguard)
     ctx.check(ok_raise and nonempty, base + ":empty-round-raises",
               f"an empty round does not raise CircularDependencyError before the yield "
               f"(raise under `not {O}`: {ok_raise}; yield dominated by non-empty `{O}`: {nonempty})",
@@ -211,8 +387,7 @@ def r2(ctx):
     # (e) the error carries find_cycles(pairs, items): the value of the `cycles` argument is followed through
     # local bindings and one level of module-local helper, the inputs through materialising copies
     carried, why = False, "no CircularDependencyError raise in the round loop"
-    for r in raises:
-        exc_call = r.exc if isinstance(r.exc, ast.Call) else None
+    for r, exc_call in raises:
         if exc_call is None:
             why = "the exception is not constructed in the raise statement"
             continue
@@ -230,6 +405,23 @@ def r2(ctx):
 _MATERIALISE = ("list", "tuple", "set", "frozenset", "sorted")
 
 
+def _reaching_top(f, name, at):
+    """(value, statement) of the plain assignment to `name` that reaches `at`, when both are statements of the
+    function's own body (no branch or loop in between can rebind the name); None when that cannot be said."""
+    body = f.node.body
+    idx = next((i for i, st in enumerate(body) if st is at), None)
+    if idx is None:
+        return None
+    for st in reversed(body[:idx]):
+        stores = [(n, v) for n, v, s_ in name_stores(ast.Module(body=[st], type_ignores=[])) if n == name]
+        if not stores:
+            continue
+        if isinstance(st, (ast.Assign, ast.AnnAssign)) and len(stores) == 1 and stores[0][1] is not None:
+            return stores[0][1], st
+        return None
+    return None
+
+
 def _same_input(ctx, f, expr, param, at, depth=0, expanding=frozenset()):
     """`expr` evaluates to the collection the caller passed as `param` (the name itself, a materialised copy
     of it, or a local bound to one of those)."""
@@ -240,6 +432,10 @@ def _same_input(ctx, f, expr, param, at, depth=0, expanding=frozenset()):
     if isinstance(expr, ast.Name):
         if expr.id in expanding:
             return expr.id == param
+        reach = _reaching_top(f, expr.id, at)
+        if reach is not None:
+            # straight-line prefix of the function body: the one binding that reaches `at`
+            return _same_input(ctx, f, reach[0], param, reach[1], depth + 1, expanding)
         binds = [(v, st) for n, v, st in name_stores(f.node) if n == expr.id]
         if expr.id != param and not binds:
             return False
@@ -702,22 +898,22 @@ R.mutant("benign-pairs-materialised-first", TOPO,
              "    tuples = list(tuples)\n    edges: DefaultDict[_T, Set[_T]] = util.defaultdict(set)\n    for parent, child in tuples:\n        edges[child].add(parent)\n"), None)
 # R4
 R.mutant("find-cycles-second-pass-over-pairs", TOPO,
-         sub("    nodes_to_test = set(edges)\n", "    nodes_to_test = set(edges).intersection(c for _, c in tuples)\n"), "C19-R4")
+         sub("    nodes_to_test = set(edges).intersection(allitems)\n", "    nodes_to_test = set(edges).intersection(allitems).intersection(c for _, c in tuples)\n"), "C19-R4")
 R.mutant("find-cycles-pairs-traversed-per-node", TOPO,
          sub("        todo = nodes_to_test.difference(stack)\n", "        todo = {p for p, _ in tuples}.difference(stack)\n"), "C19-R4")
 R.mutant("find-cycles-items-traversed-twice", TOPO,
-         sub("    nodes_to_test = set(edges)\n", "    nodes_to_test = set(edges).intersection(allitems)\n    isolated = set(allitems).difference(edges)\n"), "C19-R4")
+         sub("    nodes_to_test = set(edges).intersection(allitems)\n", "    nodes_to_test = set(edges).intersection(allitems)\n    isolated = set(allitems).difference(edges)\n"), "C19-R4")
 R.mutant("ddl-passes-generator-of-pairs", "sql/ddl.py",
          sub("    try:\n        candidate_sort = list(\n            topological.sort(\n                fixed_dependencies.union(mutable_dependencies),\n",
              "    try:\n        candidate_sort = list(\n            topological.sort(\n                (d for d in fixed_dependencies.union(mutable_dependencies)),\n"), "C19-R4")
 R.mutant("decl-base-passes-iterator", "orm/decl_base.py",
          sub("        return list(topological.sort(tuples, classes_for_base))", "        return list(topological.sort(iter(tuples), classes_for_base))"), "C19-R4")
 R.mutant("benign-find-cycles-materialises-then-second-pass", TOPO,
-         sub("    for parent, child in tuples:\n        edges[parent].add(child)\n    nodes_to_test = set(edges)\n",
-             "    tuples = list(tuples)\n    for parent, child in tuples:\n        edges[parent].add(child)\n    nodes_to_test = set(edges).intersection(c for _, c in tuples)\n"), None)
+         sub("    for parent, child in tuples:\n        edges[parent].add(child)\n    nodes_to_test = set(edges).intersection(allitems)\n",
+             "    tuples = list(tuples)\n    for parent, child in tuples:\n        edges[parent].add(child)\n    nodes_to_test = set(edges).intersection(allitems).intersection(c for _, c in tuples)\n"), None)
 R.mutant("benign-find-cycles-identity-test", TOPO,
-         sub("    for parent, child in tuples:\n        edges[parent].add(child)\n    nodes_to_test = set(edges)\n",
-             "    if tuples is None:\n        return set()\n    for parent, child in tuples:\n        edges[parent].add(child)\n    nodes_to_test = set(edges)\n"), None)
+         sub("    for parent, child in tuples:\n        edges[parent].add(child)\n    nodes_to_test = set(edges).intersection(allitems)\n",
+             "    if tuples is None:\n        return set()\n    for parent, child in tuples:\n        edges[parent].add(child)\n    nodes_to_test = set(edges).intersection(allitems)\n"), None)
 # R5
 R.mutant("sort-ignores-dependency-pairs", TOPO,
          sub("    for set_ in sort_as_subsets(tuples, allitems):\n", "    for set_ in sort_as_subsets((), allitems):\n"), "C19-R5")
@@ -754,3 +950,79 @@ R.mutant("benign-unpack-list", TOPO,
          sub("    todo = list(allitems)\n", "    todo = [*allitems]\n"), None)
 R.mutant("benign-uow-logging", "orm/unitofwork.py",
          sub("        # execute\n        if self.cycles:\n", "        # execute\n        _n = len(postsort_actions)\n        if self.cycles:\n"), None)
+
+
+# ------------------------------------------------------------------ rob-B1: refactoring families (R2 must read the
+# semantics, not the shape): comprehension <-> loop, guard clause with `continue`, predicate helper, boolean local,
+# any()/all() spelling, inverted round, exception built/raised by a helper, pending set from the list copy,
+# removal by rebinding, pair unpacked in the body -- each with a breaking twin in the same shape
+_EMIT = ("        output = []\n        for node in todo:\n            if todo_set.isdisjoint(edges[node]):\n"
+         "                output.append(node)\n")
+_RAISE = ("            raise CircularDependencyError(\n                \"Circular dependency detected.\",\n"
+          "                find_cycles(tuples, allitems),\n                _gen_edges(edges),\n            )\n")
+_TAIL = ("        todo_set.difference_update(output)\n        todo = [t for t in todo if t in todo_set]\n        yield output\n")
+_DEF_SORT = "\n\ndef sort(\n"
+_HELPER_READY = "\n\ndef _is_ready(item, prerequisites, pending):\n    return pending.isdisjoint(prerequisites[item])\n"
+_HELPER_EXC = ("\n\ndef _cycle_error(pairs, items, edge_map):\n    return CircularDependencyError(\n        \"Circular dependency detected.\",\n"
+               "        find_cycles(pairs, items),\n        _gen_edges(edge_map),\n    )\n")
+_HELPER_RAISE = ("\n\ndef _raise_cycle(pairs, items, edge_map):\n    raise CircularDependencyError(\n        \"Circular dependency detected.\",\n"
+                 "        find_cycles(pairs, items),\n        _gen_edges(edge_map),\n    )\n")
+
+R.mutant("benign-emit-by-comprehension", TOPO,
+         sub(_EMIT, "        output = [node for node in todo if todo_set.isdisjoint(edges[node])]\n"), None)
+R.mutant("benign-filter-by-loop", TOPO,
+         sub("        todo = [t for t in todo if t in todo_set]\n",
+             "        still = []\n        for t in todo:\n            if t in todo_set:\n                still.append(t)\n        todo = still\n"), None)
+R.mutant("emit-by-comprehension-unguarded", TOPO,
+         sub(_EMIT, "        output = [node for node in todo if node in todo_set]\n"), "C19-R2")
+R.mutant("emit-by-comprehension-guard-negated", TOPO,
+         sub(_EMIT, "        output = [node for node in todo if not todo_set.isdisjoint(edges[node])]\n"), "C19-R2")
+R.mutant("benign-emit-guard-clause-continue", TOPO,
+         sub(_EMIT, "        output = []\n        for node in todo:\n            if not todo_set.isdisjoint(edges[node]):\n"
+                    "                continue\n            output.append(node)\n"), None)
+R.mutant("emit-guard-clause-continue-inverted", TOPO,
+         sub(_EMIT, "        output = []\n        for node in todo:\n            if todo_set.isdisjoint(edges[node]):\n"
+                    "                continue\n            output.append(node)\n"), "C19-R2")
+R.mutant("benign-emit-guard-predicate-helper", TOPO,
+         chain(sub("            if todo_set.isdisjoint(edges[node]):", "            if _is_ready(node, edges, todo_set):"),
+               sub(_DEF_SORT, _HELPER_READY + _DEF_SORT)), None)
+R.mutant("emit-guard-predicate-helper-wrong", TOPO,
+         chain(sub("            if todo_set.isdisjoint(edges[node]):", "            if _is_ready(node, edges, todo_set):"),
+               sub(_DEF_SORT, _HELPER_READY.replace("return pending", "return not pending") + _DEF_SORT)), "C19-R2")
+R.mutant("benign-emit-guard-boolean-local", TOPO,
+         sub("            if todo_set.isdisjoint(edges[node]):",
+             "            blocked = todo_set.intersection(edges[node])\n            if not blocked:"), None)
+R.mutant("benign-emit-guard-any-spelling", TOPO,
+         sub("            if todo_set.isdisjoint(edges[node]):", "            if not any(p in todo_set for p in edges[node]):"), None)
+R.mutant("emit-guard-any-spelling-wrong", TOPO,
+         sub("            if todo_set.isdisjoint(edges[node]):", "            if any(p in todo_set for p in edges[node]):"), "C19-R2")
+R.mutant("benign-round-inverted", TOPO,
+         sub("        if not output:\n" + _RAISE + "\n" + _TAIL,
+             "        if output:\n" + _TAIL.replace("        ", "            ") + "        else:\n" + _RAISE), None)
+R.mutant("round-inverted-wrongly", TOPO,
+         sub("        if not output:\n" + _RAISE + "\n" + _TAIL,
+             "        if not output:\n" + _TAIL.replace("        ", "            ") + "        else:\n" + _RAISE), "C19-R2")
+R.mutant("benign-exception-built-by-helper", TOPO,
+         chain(sub(_RAISE, "            raise _cycle_error(tuples, allitems, edges)\n"), sub(_DEF_SORT, _HELPER_EXC + _DEF_SORT)), None)
+R.mutant("benign-raise-in-helper", TOPO,
+         chain(sub(_RAISE, "            _raise_cycle(tuples, allitems, edges)\n"), sub(_DEF_SORT, _HELPER_RAISE + _DEF_SORT)), None)
+R.mutant("exception-helper-gets-pending-list", TOPO,
+         chain(sub(_RAISE, "            raise _cycle_error(tuples, todo, edges)\n"), sub(_DEF_SORT, _HELPER_EXC + _DEF_SORT)), "C19-R2")
+R.mutant("exception-helper-swaps-inputs", TOPO,
+         chain(sub(_RAISE, "            raise _cycle_error(tuples, allitems, edges)\n"),
+               sub(_DEF_SORT, _HELPER_EXC.replace("find_cycles(pairs, items)", "find_cycles(items, pairs)") + _DEF_SORT)), "C19-R2")
+R.mutant("benign-pending-set-from-list-copy", TOPO,
+         sub("    todo_set = set(allitems)\n", "    todo_set = set(todo)\n"), None)
+R.mutant("benign-removal-by-rebinding", TOPO,
+         sub("        todo_set.difference_update(output)\n", "        todo_set = todo_set - set(output)\n"), None)
+R.mutant("removal-by-rebinding-wrong-operand", TOPO,
+         sub("        todo_set.difference_update(output)\n", "        todo_set = todo_set - set(edges)\n"), "C19-R2")
+R.mutant("benign-pair-unpacked-in-body", TOPO,
+         sub("    for parent, child in tuples:\n        edges[child].add(parent)\n\n    todo",
+             "    for pair in tuples:\n        parent, child = pair\n        edges[child].add(parent)\n\n    todo"), None)
+R.mutant("pair-unpacked-in-body-swapped", TOPO,
+         sub("    for parent, child in tuples:\n        edges[child].add(parent)\n\n    todo",
+             "    for pair in tuples:\n        child, parent = pair\n        edges[child].add(parent)\n\n    todo"), "C19-R2")
+R.mutant("benign-pair-indexed", TOPO,
+         sub("    for parent, child in tuples:\n        edges[child].add(parent)\n\n    todo",
+             "    for pair in tuples:\n        edges[pair[1]].add(pair[0])\n\n    todo"), None)
